@@ -5,7 +5,7 @@
 (* answers the REAL stores gave after it, projected to the terms of the model (cache and direct *)
 (* evaluation are compared with each other in full by the engine; the answers recorded here are *)
 (* those of direct evaluation).  The trace specification takes the same step in the model and   *)
-(* requires the model's answers to be the recorded ones; QueriesAgree and CacheCoherent are     *)
+(* requires the model's answers (per repository) to be the recorded ones; QueriesAgree and CacheCoherent are     *)
 (* checked in every state.                                                                      *)
 EXTENDS CobCache, Json, IOUtils, SequencesExt
 
@@ -14,7 +14,7 @@ Rec == ndJsonDeserialize(IOEnv.TRACE)
 VARIABLE l
 tvars == <<hist, tip, cache, next, steps, log, l>>
 
-OpOf(o) == [k |-> o.k, id |-> o.id, by |-> o.by, arg |-> o.arg, st |-> o.st, kind |-> o.kind]
+OpOf(o) == [k |-> o.k, id |-> o.id, by |-> o.by, arg |-> o.arg, st |-> o.st, kind |-> o.kind, repo |-> o.repo]
 
 Take(s) ==
     LET o == OpOf(s.op) IN
@@ -24,7 +24,7 @@ Take(s) ==
       [] s.a = "fetched"       -> s.obj \in Objs /\ Exists(s.obj) /\ o \in OpsOn(s.obj, Peer) /\ FetchedOp(s.obj, o)
       [] s.a = "remove"        -> RemoveMine(s.obj)
       [] s.a = "fetchedDelete" -> FetchedDelete(s.obj)
-      [] s.a = "writeAll"      -> WriteAll(s.op.kind)
+      [] s.a = "writeAll"      -> s.op.repo \in Repos /\ WriteAll(s.op.kind, s.op.repo)
 
 \* JSON objects with numeric keys come back as records with string field names
 KeysOf(f) == DOMAIN f
@@ -41,7 +41,7 @@ ObjMatches(m, r) ==
         /\ \A k \in DOMAIN m.reviews : /\ m.reviews[k].rev = r.reviews[ToString(k)].rev
                                        /\ m.reviews[k].by = r.reviews[ToString(k)].by
 
-AnsMatches(a, r) ==
+AnsMatchesIn(a, r) ==
     /\ Len(r.get) = Len(a.get)
     /\ \A i \in DOMAIN a.get : ObjMatches(a.get[i], r.get[i])
     /\ \A i \in DOMAIN a.find : a.find[i].r = r.find[i].r /\ a.find[i].patch = r.find[i].patch
@@ -51,6 +51,9 @@ AnsMatches(a, r) ==
     /\ \A s \in IssueStatus : a.status.issue[s] = ToSet(r.status.issue[s])
     /\ \A s \in PatchStatus : a.counts.patch[s] = r.counts.patch[s]
     /\ \A s \in {"open", "closed"} : a.counts.issue[s] = r.counts.issue[s]
+
+\* one record of answers per repository
+AnsMatches(a, r) == Len(r) = NRepos /\ \A k \in Repos : AnsMatchesIn(a[k], r[k])
 
 TInit == Init /\ l = 1
 
